@@ -240,3 +240,62 @@ Definition spec_unfe (e : option err) : option notif :=
         end
       end
   end.
+
+(* ---------- C16/C17 with arbitrary callbacks ---------- *)
+Definition item_call (t : N * N * bytes) : call := CPa (fst (fst t)) (snd (fst t)) (snd t).
+Definition item_code (t : N * N * bytes) : N := fst (fst t).
+Definition missing_attrs (items : list (N * N * bytes)) (Nl : bytes) : bool :=
+  let has c := existsb (N.eqb c) (map item_code items) in
+  ((0 <? blen Nl) || has 14) && negb (has 1 && has 2).
+
+(* ---- specification: the error events of a Decode, from the RFC split and the script alone ---- *)
+Definition olist (e : option err) : list err := match e with Some x => [x] | None => [] end.
+Definition oleaves (e : option err) : list err := match e with Some x => leaves x | None => [] end.
+
+(* callbacks on n consecutive attribute items starting at script index k: the errors returned, whether
+   one of them contained a Notification (decoding stops there), and how many callbacks ran *)
+Fixpoint attr_cb_events (sc : script) (k n : nat) : list err * bool * nat :=
+  match n with
+  | O => ([], false, O)
+  | S n' =>
+      match sc k with
+      | Some e => if has_notif e then ([e], true, 1%nat)
+                  else let '(l, s, c) := attr_cb_events sc (S k) n' in (e :: l, s, S c)
+      | None => let '(l, s, c) := attr_cb_events sc (S k) n' in (l, s, S c)
+      end
+  end.
+
+Definition missing_event (items : list (N * N * bytes)) (Nl : bytes) : list err :=
+  if missing_attrs items Nl then
+    let m := if existsb (N.eqb 1) (map item_code items) then 2 else 1 in
+    [ETaw m (Some (mkNotif 3 3 [m]))]
+  else [].
+
+Definition spec_err_events (sc : script) (b : bytes) : list err :=
+  match spec_sections b with
+  | None => [ENotif (mkNotif 3 (if blen b <? 4 then 0 else 1) [])]
+  | Some (W, A, Nl) =>
+      let (items, aend) := attr_items A in
+      if has_notif_o (sc O) then olist (sc O) else
+      let '(cbs, stopped, _) := attr_cb_events sc 1 (length items) in
+      olist (sc O) ++ cbs ++
+      if stopped then [] else
+      match aend with
+      | EndDupMP => [ENotif (mkNotif 3 1 [])]
+      | EndOverrun c => ETaw c (Some (mkNotif 3 0 [])) :: missing_event items Nl ++ olist (sc (S (length items)))
+      | EndClean => missing_event items Nl ++ olist (sc (S (length items)))
+      end
+  end.
+
+(* and the calls, for any callback behaviour: the specification's calls cut at the stop *)
+Definition spec_calls_script (sc : script) (b : bytes) : list call :=
+  match spec_sections b with
+  | None => []
+  | Some (W, A, Nl) =>
+      let (items, aend) := attr_items A in
+      if has_notif_o (sc O) then [CWr W] else
+      let '(_, stopped, ncalled) := attr_cb_events sc 1 (length items) in
+      CWr W :: map item_call (firstn ncalled items)
+      ++ if stopped then [] else match aend with EndDupMP => [] | _ => [CNl Nl] end
+  end.
+
